@@ -62,7 +62,7 @@ Fixpoint le_series (a b : list Q) : bool :=
   end.
 
 (* ---- flat interface ----
-   [n; q; pi; depth; d] ++ rho(n) ++ mu(n) ++ fturb(n)  ->  [regime] ++ v(n) ++ f(n) ++ DP(n) *)
+   [n; q; pi; depth; d] ++ rho(n) ++ mu(n) ++ fturb(n)  ->  [regime] ++ v(n) ++ Re(n) ++ f(n) ++ DP(n) *)
 Definition run_friction (a : list Q) : res :=
   match a with
   | n :: q :: pi :: depth :: d :: rest =>
@@ -70,7 +70,8 @@ Definition run_friction (a : list Q) : res :=
       let '(rho, r1) := take_drop n rest in
       let '(mu, fturb) := take_drop n r1 in
       let f := friction_series q pi d mu fturb in
-      Vals (boolQ (laminar_regime q pi d mu) :: map (fun r => velocity q r pi d) rho ++ f ++ dp_series q pi depth d f rho)
+      Vals (boolQ (laminar_regime q pi d mu) :: map (fun r => velocity q r pi d) rho ++ map (fun m => reynolds q m pi d) mu
+            ++ f ++ dp_series q pi depth d f rho)
   | _ => Err E_ARGS
   end.
 
